@@ -503,6 +503,9 @@ func H10_unsubscribe_resumed() {
 	vrtExchange(wit, &specPkt{Typ: specPUBLISH, Flags: 2, ID: 61, Topic: kept, Payload: []byte("2")})
 	got, ok := vrtParse(c3.peerTake())
 	vrtAssert("C10.restored_subscription_delivers", ok && len(got) == 1)
+	// after several CONNACKs with SessionPresent=1: a clean connect and an unknown client id are answered with 0
+	_, ackc := b.connect(vrtConnectPkt([]byte("x2"), vrtBool("last_connect_clean")))
+	vrtAssert("C10.session_present_flag", vrtIsConnack(ackc, false, 0))
 	vrtReach("C10.unsubscribe_resumed")
 }
 
